@@ -194,6 +194,7 @@ let rec p_script (c : cursor) : script =
   | 'r' -> SRet (p_value c)
   | 'a' -> SArg (nat_of_int (int_of_string (p_field c)))
   | 'e' -> SFail
+  | 'E' -> c.pos <- c.pos + 1; SFail   (* an Err of another kind (the error of a nested evaluation handed on): the model has one Err *)
   | 'p' -> SPanic
   | 'q' -> let a = p_action c in let k = p_script c in SSeq (a, k)
   | 'k' ->
